@@ -428,7 +428,10 @@ MODLVL == Fam("mod",
        "declare i32 @foo()\ndeclare i32 @bar(i32, ...)\ndefine i32 @c(i32 %x) personality i32 (...)* @pers {\n  %a = call i32 (...) bitcast (i32 ()* @foo to i32 (...)*)()\n  %b = call i32 (...) bitcast (i32 ()* @foo to i32 (...)*)(i32 %x)\n  %c = call i32 (i32, ...) @bar(i32 %x)\n  %d = call i32 (i32, ...) @bar(i32 %x, i32 %a)\n  %e = call i32 (i32, ...) bitcast (i32 ()* @foo to i32 (i32, ...)*)(i32 %b)\n  %f = invoke i32 (...) bitcast (i32 ()* @foo to i32 (...)*)()\n          to label %ok unwind label %lp\nok:\n  ret i32 %f\nlp:\n  %l = landingpad { i8*, i32 }\n          cleanup\n  ret i32 %c\n}\ndeclare i32 @pers(...)",
        "%v = type <vscale x 4 x i32>\ndefine %v @f(%v %a) {\n  %r = add %v %a, %a\n  ret %v %r\n}",
        "!0 = !DIBasicType(name: \"x\", size: 32, encoding: 200)\n!1 = !DISubroutineType(cc: 250, types: null)\n!3 = !DIFile(filename: \"a\", directory: \"b\")\n!4 = distinct !DICompileUnit(language: 36000, file: !3)\n!5 = !DICompositeType(tag: DW_TAG_structure_type, name: \"S\", runtimeLang: 999)\n!llvm.dbg.cu = !{!4}\n!t = !{!0, !1, !5}\n!llvm.module.flags = !{!9}\n!9 = !{i32 2, !\"Debug Info Version\", i32 3}",
-       "define void @g() addrspace(1) {\nentry:\n  br label %bb\nbb:\n  ret void\n}\n@e = global i8 addrspace(1)* blockaddress(@g, %bb)\ndefine void @h() {\n  indirectbr i8 addrspace(1)* blockaddress(@g, %bb), []\n}"
+       "define void @g() addrspace(1) {\nentry:\n  br label %bb\nbb:\n  ret void\n}\n@e = global i8 addrspace(1)* blockaddress(@g, %bb)\ndefine void @h() {\n  indirectbr i8 addrspace(1)* blockaddress(@g, %bb), []\n}",
+       \* call-like instructions through a function pointer in another address space; a type-carrying FUNCTION attribute
+       "declare i32 @p(...)\ndefine void @f(void () addrspace(1)* %fp, i32 (i32) addrspace(1)* %fq) personality i32 (...)* @p {\n  call addrspace(1) void %fp()\n  %r = tail call addrspace(1) i32 %fq(i32 1)\n  invoke addrspace(1) void %fp() to label %a unwind label %b\na:\n  ret void\nb:\n  %l = landingpad { i8*, i32 } cleanup\n  ret void\n}",
+       "declare void @f() preallocated(i8)\ndeclare void @g() #0\nattributes #0 = { preallocated(i32) nounwind }"
      >>) >>,
   {}, FALSE)
 
